@@ -18,7 +18,7 @@ def _job(job):
     import contextlib
     cm = mergespace.renderer_env(renderer) if renderer else contextlib.nullcontext()
     with cm:
-        for ti, (b, l, r) in enumerate(nbspace.triples(seed, ntriples, max_edits=max_edits)):
+        for ti, (b, l, r) in enumerate(nbspace.triples(seed, ntriples, max_edits=max_edits, tail=True)):
             if any(nbspace.validate_strict(x) for x in (b, l, r)):
                 out.append(('GEN', 'invalid-input', 'the generator produced an invalid notebook', {'seed': seed, 'triple': ti}))
                 continue
@@ -83,7 +83,7 @@ def replay_case(where, props, report_prop):
     import contextlib
     cm = mergespace.renderer_env(where['renderer']) if where.get('renderer') else contextlib.nullcontext()
     with cm:
-        for ti, (b, l, r) in enumerate(nbspace.triples(where['seed'], where['ntriples'], max_edits=where['max_edits'])):
+        for ti, (b, l, r) in enumerate(nbspace.triples(where['seed'], where['ntriples'], max_edits=where['max_edits'], tail=True)):
             if ti == where['triple']:
                 a = mergespace.args_for(*where['strategy'])
                 fails, _ = mo.merge_case(b, l, r, a, set(props))
